@@ -54,7 +54,7 @@ def extract_comment_regex(ignore_character):
                         getattr(st.value.func, 'attr', '') == 'compile':
                     expr = ast.Expression(st.value.args[0])
                     ast.fix_missing_locations(expr)
-                    return eval(compile(expr, '<pharmpy>', 'eval'), {'ignore_character': ignore_character})
+                    return eval(compile(expr, '<pharmpy>', 'eval'), {'ignore_character': ignore_character, 're': re})
     raise RuntimeError('comment regex not found in NMTRANDataIO.__init__')
 
 
@@ -129,13 +129,16 @@ def _node(op, av):
 
 def to_z3(pattern, strip_line_anchors=False):
     """z3 regular expression for the full-match language of `pattern`.  With strip_line_anchors the pattern must have
-    the shape ^ body NEWLINE (a MULTILINE line pattern) and the language of `body` (a line without its newline) is
+    the shape ^ body NEWLINE or ^ body NEWLINE? (a MULTILINE line pattern) and the language of `body` (a line without its newline) is
     returned."""
     parsed = list(sre_parse.parse(pattern))
     if strip_line_anchors:
         if not parsed or parsed[0] != (sre_c.AT, sre_c.AT_BEGINNING):
             raise NotImplementedError('line pattern does not start with ^')
-        if parsed[-1] != (sre_c.LITERAL, 10):
+        last = parsed[-1]
+        opt_nl = last[0] in (sre_c.MAX_REPEAT, sre_c.MIN_REPEAT) and last[1][0] == 0 and last[1][1] == 1 and \
+            list(last[1][2]) == [(sre_c.LITERAL, 10)]
+        if last != (sre_c.LITERAL, 10) and not opt_nl:
             raise NotImplementedError('line pattern does not end with a newline')
         parsed = parsed[1:-1]
     return _seq(parsed)
